@@ -109,3 +109,15 @@ pub fn sibling_instant(rng: &mut Rng, i: i128, lo: i128, hi: i128) -> i128 {
     };
     j.clamp(lo, hi)
 }
+
+/// A sub-second value (0..10^9 ns) next to a power of ten — where the number of digits changes, i.e. where zero
+/// padding, digit counting (log10, string length) and digit-group truncation are decided.
+pub fn subsec_near_power_of_ten(rng: &mut Rng) -> u32 {
+    let p = 10u32.pow(rng.range_i64(1, 9) as u32);
+    let j = match rng.below(3) {
+        0 => rng.below(3) as u32,
+        _ => rng.below(70) as u32,
+    };
+    let v = if rng.chance(2, 3) { p.saturating_sub(j) } else { p.saturating_add(j) };
+    v.min(999_999_999)
+}
